@@ -30,7 +30,7 @@ def _core(out, tier, seed, prop, quick_mc, thorough_mc, quick_rand, thorough_ran
     if prop in ("C02", "C05"):
         # second layer: the object-graph mechanism (placeholders, substitution, cascade one step at a
         # time) refines the document specification and keeps the graph closed and symmetric
-        ok, st, inv = core.mc_impl(5 if tier == "quick" else 7, True, "impl-" + prop)
+        ok, st, inv = core.mc_impl(5 if tier == "quick" else 7 if prop == "C02" else 6, True, "impl-" + prop)
         if not ok:
             raise core.MachineryError("GfaImpl does not refine Gfa: invariant %s" % inv)
         out.add_cov(states=st[1], transitions=st[0], impl_layer_states=st[1])
